@@ -25,6 +25,18 @@ Proofs/ReaderTotal.vos Proofs/ReaderTotal.vok Proofs/ReaderTotal.required_vos: P
 Proofs/EvalRel.vo Proofs/EvalRel.glob Proofs/EvalRel.v.beautified Proofs/EvalRel.required_vo: Proofs/EvalRel.v Base/Base.vo Model/Reader.vo Model/Printer.vo Model/Store.vo Model/Eval.vo Proofs/ReaderTotal.vo
 Proofs/EvalRel.vio: Proofs/EvalRel.v Base/Base.vio Model/Reader.vio Model/Printer.vio Model/Store.vio Model/Eval.vio Proofs/ReaderTotal.vio
 Proofs/EvalRel.vos Proofs/EvalRel.vok Proofs/EvalRel.required_vos: Proofs/EvalRel.v Base/Base.vos Model/Reader.vos Model/Printer.vos Model/Store.vos Model/Eval.vos Proofs/ReaderTotal.vos
+Proofs/Numeric.vo Proofs/Numeric.glob Proofs/Numeric.v.beautified Proofs/Numeric.required_vo: Proofs/Numeric.v Base/Base.vo Model/Reader.vo Model/Printer.vo Model/Store.vo Model/Eval.vo
+Proofs/Numeric.vio: Proofs/Numeric.v Base/Base.vio Model/Reader.vio Model/Printer.vio Model/Store.vio Model/Eval.vio
+Proofs/Numeric.vos Proofs/Numeric.vok Proofs/Numeric.required_vos: Proofs/Numeric.v Base/Base.vos Model/Reader.vos Model/Printer.vos Model/Store.vos Model/Eval.vos
+Proofs/Lists.vo Proofs/Lists.glob Proofs/Lists.v.beautified Proofs/Lists.required_vo: Proofs/Lists.v Base/Base.vo Model/Reader.vo Model/Printer.vo Model/Store.vo Model/Eval.vo Model/Init.vo
+Proofs/Lists.vio: Proofs/Lists.v Base/Base.vio Model/Reader.vio Model/Printer.vio Model/Store.vio Model/Eval.vio Model/Init.vio
+Proofs/Lists.vos Proofs/Lists.vok Proofs/Lists.required_vos: Proofs/Lists.v Base/Base.vos Model/Reader.vos Model/Printer.vos Model/Store.vos Model/Eval.vos Model/Init.vos
+Proofs/Decimal.vo Proofs/Decimal.glob Proofs/Decimal.v.beautified Proofs/Decimal.required_vo: Proofs/Decimal.v Base/Base.vo Model/Reader.vo Model/Printer.vo
+Proofs/Decimal.vio: Proofs/Decimal.v Base/Base.vio Model/Reader.vio Model/Printer.vio
+Proofs/Decimal.vos Proofs/Decimal.vok Proofs/Decimal.required_vos: Proofs/Decimal.v Base/Base.vos Model/Reader.vos Model/Printer.vos
+Proofs/Strings.vo Proofs/Strings.glob Proofs/Strings.v.beautified Proofs/Strings.required_vo: Proofs/Strings.v Base/Base.vo Model/Reader.vo Model/Printer.vo Model/Store.vo Model/Eval.vo Model/Init.vo Proofs/Decimal.vo
+Proofs/Strings.vio: Proofs/Strings.v Base/Base.vio Model/Reader.vio Model/Printer.vio Model/Store.vio Model/Eval.vio Model/Init.vio Proofs/Decimal.vio
+Proofs/Strings.vos Proofs/Strings.vok Proofs/Strings.required_vos: Proofs/Strings.v Base/Base.vos Model/Reader.vos Model/Printer.vos Model/Store.vos Model/Eval.vos Model/Init.vos Proofs/Decimal.vos
 Props/C03.vo Props/C03.glob Props/C03.v.beautified Props/C03.required_vo: Props/C03.v Base/Base.vo Model/Reader.vo Model/Printer.vo Model/Store.vo Model/Eval.vo Model/Init.vo Proofs/EvalRel.vo
 Props/C03.vio: Props/C03.v Base/Base.vio Model/Reader.vio Model/Printer.vio Model/Store.vio Model/Eval.vio Model/Init.vio Proofs/EvalRel.vio
 Props/C03.vos Props/C03.vok Props/C03.required_vos: Props/C03.v Base/Base.vos Model/Reader.vos Model/Printer.vos Model/Store.vos Model/Eval.vos Model/Init.vos Proofs/EvalRel.vos
@@ -34,3 +46,12 @@ Props/C08.vos Props/C08.vok Props/C08.required_vos: Props/C08.v Base/Base.vos Mo
 Props/C10.vo Props/C10.glob Props/C10.v.beautified Props/C10.required_vo: Props/C10.v Base/Base.vo Model/Reader.vo Model/Printer.vo Model/Store.vo Model/Eval.vo Model/Init.vo Proofs/EvalRel.vo
 Props/C10.vio: Props/C10.v Base/Base.vio Model/Reader.vio Model/Printer.vio Model/Store.vio Model/Eval.vio Model/Init.vio Proofs/EvalRel.vio
 Props/C10.vos Props/C10.vok Props/C10.required_vos: Props/C10.v Base/Base.vos Model/Reader.vos Model/Printer.vos Model/Store.vos Model/Eval.vos Model/Init.vos Proofs/EvalRel.vos
+Props/C12.vo Props/C12.glob Props/C12.v.beautified Props/C12.required_vo: Props/C12.v Base/Base.vo Model/Reader.vo Model/Printer.vo Model/Store.vo Model/Eval.vo Model/Init.vo Proofs/Lists.vo
+Props/C12.vio: Props/C12.v Base/Base.vio Model/Reader.vio Model/Printer.vio Model/Store.vio Model/Eval.vio Model/Init.vio Proofs/Lists.vio
+Props/C12.vos Props/C12.vok Props/C12.required_vos: Props/C12.v Base/Base.vos Model/Reader.vos Model/Printer.vos Model/Store.vos Model/Eval.vos Model/Init.vos Proofs/Lists.vos
+Props/C13.vo Props/C13.glob Props/C13.v.beautified Props/C13.required_vo: Props/C13.v Base/Base.vo Model/Reader.vo Model/Printer.vo Model/Store.vo Model/Eval.vo Model/Init.vo Proofs/Numeric.vo
+Props/C13.vio: Props/C13.v Base/Base.vio Model/Reader.vio Model/Printer.vio Model/Store.vio Model/Eval.vio Model/Init.vio Proofs/Numeric.vio
+Props/C13.vos Props/C13.vok Props/C13.required_vos: Props/C13.v Base/Base.vos Model/Reader.vos Model/Printer.vos Model/Store.vos Model/Eval.vos Model/Init.vos Proofs/Numeric.vos
+Props/C15.vo Props/C15.glob Props/C15.v.beautified Props/C15.required_vo: Props/C15.v Base/Base.vo Model/Reader.vo Model/Printer.vo Model/Store.vo Model/Eval.vo Model/Init.vo Proofs/Decimal.vo Proofs/Strings.vo
+Props/C15.vio: Props/C15.v Base/Base.vio Model/Reader.vio Model/Printer.vio Model/Store.vio Model/Eval.vio Model/Init.vio Proofs/Decimal.vio Proofs/Strings.vio
+Props/C15.vos Props/C15.vok Props/C15.required_vos: Props/C15.v Base/Base.vos Model/Reader.vos Model/Printer.vos Model/Store.vos Model/Eval.vos Model/Init.vos Proofs/Decimal.vos Proofs/Strings.vos
